@@ -68,12 +68,18 @@ def cases(chk):
     # crash points: an earlier construction with the same callables was aborted by the k-th callback call raising (caught by the caller)
     for c0 in [c for c in cs if c["kind"] in ("function", "marginal")][::2 if not thorough else 1]:
         cs.append(dict(c0, pre_fault=rng.choice([1, 2, 3, 5, 8])))
+    for c0 in [c for c in cs if c["kind"] in ("function", "marginal", "empirical", "manual") and not c.get("pre_fault")][::3 if not thorough else 1]:
+        cs.append(dict(c0, pre_abort=rng.random()))
+    for c0 in [c for c in cs if c["kind"] == "manual"][::2]:
+        cs.append(dict(c0, shared_params=True))
     return cs
 
 
 def run(chk):
     chk.mc("Loaders", "MC_Loaders.cfg", required=["ResolveDegree", "DeleteColumn", "CreateJdd", "TryCandidate", "Restore"])
     chk.mc("Loaders", "MC_Loaders_rejectleak.cfg", expect_violation="C06_Law")   # deviation: a rejected candidate input leaves something behind
+    from .. import crash
+    crash.mc(chk)
     chk.mc("Loaders", "MC_Loaders_accum.cfg", expect_violation="C06_Law")
     cs = cases(chk)
     traces = [L.execute(c) for c in cs]
